@@ -232,7 +232,8 @@ def run_check(mod, tier, seed, workers=None, deadline_s=None):
     meta = getattr(mod, "META", {})
     req = meta.get("required_classes", {})
     req = req.get(tier, req.get("all", [])) if isinstance(req, dict) else req
-    if not capped:
+    if not capped and total.n_violations == 0 and not total.known_hits:
+        # (when cases fail before they can be classified the violations are what matters, not the vacuity guard)
         missing = [c for c in req if total.classes.get(c, 0) == 0]
         if missing:
             sys.stdout.write("HARNESS-ERROR property=%s vacuous: structure classes never exercised: %s\n" % (pid, missing))
